@@ -29,7 +29,7 @@ n_unconverged = 0
 n_not_minimal = 0
 n_order = 0
 for case in range(N):
-    ns = int(rng.integers(2, 9))
+    ns = int(rng.integers(2, 13))      # the property's range: 2-12 species
     els = ['H', 'O', 'C', 'N'][:int(rng.integers(1, 5))]
     species = []
     for i in range(ns):
@@ -186,7 +186,7 @@ print(json.dumps({'bounded': [{'name': 'solver-failure-visible-under-default-war
                               {'name': 'from_thermdat-reads-the-named-file-every-time', 'scope': '6 files rewritten in place between two constructions',
                                'n': n2, 'failures': f2[:10]},
                               {'name': 'equilibrium-solver-results',
-                               'scope': '%d seeded networks of 2-8 species over 1-4 elements; %d unconverged (all signalled); '
+                               'scope': '%d seeded networks of 2-12 species over 1-4 elements; %d unconverged (all signalled); '
                                         'measured only, not judged (assumed SLSQP contract): %d converged results with a lower-energy '
                                         'atom-conserving neighbour, %d order-dependent' % (N, n_unconverged, n_not_minimal, n_order),
                                'n': n, 'failures': fails[:10]}]}))
